@@ -73,18 +73,31 @@ func vSelCount(ss ast.SelectionSet, out map[vPair]int) {
 	}
 }
 
+// vSelVars: when set, selections that @skip/@include exclude under these variable values do not count
+// as selected (nothing has to be requested for them)
+var vSelVars map[string]interface{}
+
 // vSelected collects the (parent type, field) pairs an operation selects, through fragments
 func vSelected(ss ast.SelectionSet, out map[vPair]bool) {
 	for _, sel := range ss {
 		switch s := sel.(type) {
 		case *ast.Field:
+			if vSelVars != nil && vSkip(s.Directives, vSelVars) {
+				continue
+			}
 			if s.ObjectDefinition != nil {
 				out[vPair{s.ObjectDefinition.Name, s.Name}] = true
 			}
 			vSelected(s.SelectionSet, out)
 		case *ast.InlineFragment:
+			if vSelVars != nil && vSkip(s.Directives, vSelVars) {
+				continue
+			}
 			vSelected(s.SelectionSet, out)
 		case *ast.FragmentSpread:
+			if vSelVars != nil && vSkip(s.Directives, vSelVars) {
+				continue
+			}
 			vSelected(s.Definition.SelectionSet, out)
 		}
 	}
@@ -147,9 +160,17 @@ func VerifSubRequests() {
 	doc, derr := gqlparser.LoadQuery(f.gw.schema, op.q)
 	verifAssert(derr == nil, "scenario operation is valid against the gateway schema")
 	cop := doc.Operations[0]
-	client := map[vPair]bool{}
-	vSelected(cop.SelectionSet, client)
+	// client: what has to be requested (selections excluded by @skip/@include under the given values
+	// do not count); clientAll: what may be requested (everything the operation names)
+	client, clientAll := map[vPair]bool{}, map[vPair]bool{}
 	clientVars := vVarsFor(cop, vars)
+	vSelected(cop.SelectionSet, clientAll)
+	vSelVars = clientVars
+	if vSelVars == nil {
+		vSelVars = map[string]interface{}{}
+	}
+	vSelected(cop.SelectionSet, client)
+	vSelVars = nil
 
 	verifAssert(f.broken == "", "every sub-request parses and validates against the schema of the service it is sent to")
 	clientCount := map[vPair]int{}
@@ -196,7 +217,7 @@ func VerifSubRequests() {
 		vSelected(sop.SelectionSet, sel)
 		for _, p := range vSortedPairs(sel) {
 			covered[p] = true
-			if !client[p] {
+			if !clientAll[p] {
 				verifAssert(p.field == "id" || p.field == "__typename" || (p.typ == "Query" && p.field == "node"),
 					"sub-requests add nothing but id/__typename helpers (and the node entry point)")
 			}
